@@ -26,8 +26,8 @@ def Opt(t):
     return ("opt", t)
 
 
-def Obj(q):
-    return ("obj", q)
+def Obj(q, lazy=False):
+    return ("obj", q, "lazy") if lazy else ("obj", q)
 
 
 def ListOf(t):
@@ -61,6 +61,7 @@ def OneOf(*ts):
 class ClassSpec:
     def __init__(self, qual, fields=None, invariants=None, ghost_props=None, env_methods=None, truth=None, inherit=True):
         self.inherit = inherit                           # False: base-class invariants do not apply to this class
+        self.assumed = []                                # [(name, text)]: facts assumed wherever invariants are assumed, never proved (listed in evidence)
         self.qual = qual
         self.module = qual.split(".")[0]
         self.fields = dict(fields or {})
@@ -80,7 +81,8 @@ class EnvSpec:
 class FuncContract:
     def __init__(self, qual, params=None, returns=None, requires=(), ensures=(), raises=(), raises_when=(), modifies=(),
                  cls=None, ensures_exc=(), inline=False, loops=None, check_invariant=True, ghost=None, self_fields=None, fresh_self=False,
-                 assume_invariant=True, props=(), result_is=None, setup=None, rely=(), monitor_preserves=()):
+                 assume_invariant=True, props=(), result_is=None, setup=None, rely=(), monitor_preserves=(), entry_holds=None):
+        self.entry_holds = dict(entry_holds or {})       # role -> [lock field names] held when the function is entered
         self.rely = list(rely)                           # [(name, text over params+self)] re-assumed after every monitor havoc (stable under other threads)
         self.monitor_preserves = list(monitor_preserves)   # [(name, int-valued text)] equal at release to its value at acquire
         self.setup = setup                    # callable(eng, env): extra aliasing / ghost initialisation of the symbolic pre-state
@@ -103,9 +105,28 @@ class FuncContract:
         self.props = list(props)
 
 
+def _unreachable_ok_lines(self, eng, fn):
+    # statements whose source line contains one of the contract's `unreachable_ok` snippets (documented dead code)
+    out = []
+    text = eng.repo.text(self.qual.split(".")[0]).splitlines()
+    for st in ast.walk(fn):
+        if isinstance(st, ast.stmt):
+            line = text[st.lineno - 1]
+            if any(snip in line for snip in getattr(self, "unreachable_ok", ())):
+                for sub in ast.walk(st):
+                    if isinstance(sub, ast.stmt):
+                        out.append(sub.lineno)
+    return out
+
+
+FuncContract.unreachable_ok_lines = _unreachable_ok_lines
+FuncContract.unreachable_ok = ()
+
+
 class LoopSpec:
     def __init__(self, invariants=(), variant=None, modifies=(), unroll=None, kind=None, index=None, types=None):
         self.types = dict(types or {})        # local name -> type descriptor used when the loop havocs it
+        self.assumed = []                     # [(name, text)] assumed with the invariants, never proved (listed as assumptions)
         self.invariants = list(invariants)    # [(name, text)] over locals + self
         self.variant = variant                # text -> int or tuple of ints (lexicographic)
         self.modifies = list(modifies)        # extra heap locations "self.f" havocked
@@ -210,7 +231,11 @@ def havoc_like(eng, val, base, ty=None, elem_ty=None):
             eng.vars[n] = sq
             nm.seq = sq
             nm.length = _z3.Length(sq)
-            base_mk = mk
+            ety = getattr(m, "elem_ty", None)
+            if ety is not None:
+                nm.elem_ty = ety
+            # never reuse the old maker: it ties elements to the OLD ghost sequence
+            base_mk = (lambda i, _t=ety, _b=base: eng.fresh_of_type(_t, _b + "_elem")) if ety is not None else None
 
             def mk2(i, _sq=sq, _mk=base_mk):
                 x = _mk(i) if _mk else pyvc.VOpaque("elem")
@@ -276,6 +301,8 @@ def apply_contract(eng, con, fn, args, kwargs, node, fr, caller_label=None):
         eng.oblige("%s/pre:%s" % (site, nm), eng.truth(v), clause=text, kind="call-pre")
     eng.emit("contract_call", con=con, env=env, site=site, node=node, frame=fr)
     old = eng.state.snapshot()
+    # exceptional conditions are predicates of the PRE-state: evaluate them before anything is havocked
+    raise_conds = [(exc, eng.truth(eng.eval_spec(cond, env, con.qual.split(".")[0], old=old))) for exc, cond in con.raises_when]
     for loc in con.modifies:
         obj, field = resolve_location(eng, loc, env)
         cur = eng.state.heap.get((obj.oid, field))
@@ -284,8 +311,7 @@ def apply_contract(eng, con, fn, args, kwargs, node, fr, caller_label=None):
             raise OutOfSubset("modifies %s: unknown field type" % loc, node)
         eng.state.heap[(obj.oid, field)] = havoc_like(eng, cur, loc, ty)
     # exceptional outcomes
-    for exc, cond in con.raises_when:
-        c = eng.truth(eng.eval_spec(cond, env, con.qual.split(".")[0], old=old))
+    for exc, c in raise_conds:
         if eng.branch(c):
             if isinstance(env.get("self"), VObj) and con.check_invariant and con.modifies:
                 assume_class_invariants(eng, env["self"])
@@ -364,6 +390,10 @@ def verify_function(eng, con, label=None, setup=None, extra_checks=None):
             setup(eng, env)
         if con.setup:
             con.setup(eng, env)
+        for lf in con.entry_holds.get(getattr(eng, "role", None) or "", []):
+            from .monitor import lock_of
+            lk = lock_of(eng, eng.state.heap[(self_obj.oid, lf)])
+            eng.state.ghost.setdefault("held", {})[lk.oid] = 1
         if self_obj is not None and con.assume_invariant and not con.fresh_self:
             assume_class_invariants(eng, self_obj)
         eng.assuming = True
@@ -405,7 +435,26 @@ def verify_function(eng, con, label=None, setup=None, extra_checks=None):
             extra_checks(eng, env2, old, outcome, label)
 
     eng.exits = 0
+    eng.covered = set()
     n = eng.explore(run_once)
+    # vacuity guard: which statements of the function's own body were reached by at least one path
+    own = set()
+
+    def collect(stmts):
+        for st in stmts:
+            if isinstance(st, ast.Expr) and isinstance(st.value, ast.Constant) and isinstance(st.value.value, str):
+                continue          # docstring
+            own.add(st.lineno)
+            for fld in ("body", "orelse", "finalbody"):
+                sub = getattr(st, fld, None)
+                if isinstance(sub, list) and not isinstance(st, (ast.FunctionDef, ast.ClassDef)):
+                    collect(sub)
+            for h in getattr(st, "handlers", []):
+                collect(h.body)
+    collect(fn.body)
+    text = eng.repo.text(modname).splitlines()
+    ok_lines = set(con.unreachable_ok_lines(eng, fn))
+    eng.unreached = sorted(l for l in own - eng.covered if "pragma: no" not in text[l - 1] and l not in ok_lines)
     if eng.exits == 0:
         raise OutOfSubset("vacuity guard: no path of %s reaches a function exit (contradictory contract or invariant?)" % con.qual)
     eng.exit_paths = eng.exits
@@ -427,7 +476,7 @@ def assume_class_invariants(eng, obj):
     eng.assuming = True
     try:
         for spec in all_specs(eng, obj.cls):
-            for nm, text in spec.invariants:
+            for nm, text in spec.invariants + spec.assumed:
                 eng.assume(eng.truth(eng.eval_spec(text, {"self": obj}, spec.module)))
     finally:
         eng.assuming = False
